@@ -102,7 +102,7 @@ func (reg TXTBootStatus) MemoryPowerDownExecuted() bool {
 }
 
 func (reg TXTBootStatus) BootStatusDetails() uint8 {
-	return uint8((reg >> 48) & 63)
+	return uint8((reg >> 48) & 31)
 }
 
 func (reg TXTBootStatus) TXTPolicyEnable() bool {
@@ -110,7 +110,7 @@ func (reg TXTBootStatus) TXTPolicyEnable() bool {
 }
 
 func (reg TXTBootStatus) BootStatusDetails2() uint8 {
-	return uint8((reg >> 54) & 63)
+	return uint8((reg >> 54) & 31)
 }
 
 func (reg TXTBootStatus) BIOSTrusted() bool {
